@@ -367,13 +367,20 @@ class ParseAPI(object):
                 if v0:
                     if s1 in ("even", "odd"):
                         is_y_odd = s1 == "odd"
-                        point = generator.points_for_x(v0)[is_y_odd]
+                        try:
+                            point = generator.points_for_x(v0)[is_y_odd]
+                        except ValueError:
+                            # no point on the curve has this x
+                            pass
                     v1 = self.as_number(s1)
                     if v1:
                         if generator.contains_point(v0, v1):
                             point = generator.Point(v0, v1)
         if point:
-            return self._network.keys.public(point)
+            try:
+                return self._network.keys.public(point)
+            except self._network.keys.InvalidPublicPairError:
+                pass
         return None
 
     def sec(self, s: str) -> Any:
